@@ -29,8 +29,49 @@ type PropsVerdicts struct {
 	Out     string
 }
 
-// ValidateProps evaluates the ExecProps monitor (by TLC) on recorded traces.
+// ValidateProps evaluates the ExecProps monitor (by TLC) on recorded traces; large batches are split
+// over several TLC processes.
 func ValidateProps(progs []*Program, traces []TraceItem) (*PropsVerdicts, error) {
+	const chunk = 1500
+	if len(traces) <= chunk {
+		return validatePropsOne(progs, traces)
+	}
+	n := (len(traces) + chunk - 1) / chunk
+	outs := make([]*PropsVerdicts, n)
+	errs := make([]error, n)
+	sem := make(chan struct{}, 8)
+	done := make(chan int, n)
+	for c := 0; c < n; c++ {
+		go func(c int) {
+			sem <- struct{}{}
+			defer func() { <-sem; done <- c }()
+			hi := (c + 1) * chunk
+			if hi > len(traces) {
+				hi = len(traces)
+			}
+			outs[c], errs[c] = validatePropsOne(progs, traces[c*chunk:hi])
+		}(c)
+	}
+	for c := 0; c < n; c++ {
+		<-done
+	}
+	all := &PropsVerdicts{ByTrace: map[string][]Viol{}}
+	for c := 0; c < n; c++ {
+		if errs[c] != nil {
+			return all, errs[c]
+		}
+		for k, v := range outs[c].ByTrace {
+			all.ByTrace[k] = v
+		}
+		all.States += outs[c].States
+		if outs[c].Wall > all.Wall {
+			all.Wall = outs[c].Wall
+		}
+	}
+	return all, nil
+}
+
+func validatePropsOne(progs []*Program, traces []TraceItem) (*PropsVerdicts, error) {
 	if len(traces) == 0 {
 		return &PropsVerdicts{ByTrace: map[string][]Viol{}}, nil
 	}
